@@ -26,7 +26,7 @@ func init() {
 			if tier == "quick" {
 				return 900
 			}
-			return 14000
+			return 30000
 		},
 		Rule:        "case = (payload length L in {1,7,100,4097,70000}, cut offset N, mode, pre-state): a child process stores one node through persist/file with RLIMIT_FSIZE=N so the kernel stops the data at exactly byte N; mode 'error' lets the write fail with EFBIG (Store returns), mode 'crash' has SIGXFSZ at SIG_DFL so the process is killed at that byte; every N in 0..L for L <= 100 (4097: every offset in thorough, 64 sampled in quick; 70000: boundaries and samples); pre-states: empty directory / complete node already present / debris of an earlier crashed attempt at another offset; every 12th case instead kills the child with a strace-injected SIGKILL on entry to the j-th syscall of the Store (every j of the traced sequence openat/write/close/fchmodat/renameat/unlinkat/fsync...), which covers crash points between syscalls; the parent then acts as the restarted process: Load must fail or return exactly the bytes, a re-Store must succeed and make Load return the bytes, and a Store that reported success must be complete; non-trivial = 0 < N < L or a kill at a non-write syscall; distinct by (L, N, mode, pre-state, syscall index)",
 		Assumptions: []string{"crash points are byte- and syscall-granular as seen from the process; reordering below the page cache (power loss without fsync) is not observable in this sandbox", "if ptrace is unavailable the strace cases are counted as not delivered; the RLIMIT cases still decide"},
